@@ -234,7 +234,15 @@ def check_slot(item):
                         else:
                             exp.append((z80ref.contended(mach, z3.Extract(15, 0, a), odd), n))
                     if not ok or len(exp) != len(ppat) or any(n != pn for (c_, n), (pa, pn) in zip(exp, ppat)):
-                        diffs.append(z3.BoolVal(True)); names.append('contention pattern shape differs (call %d)' % j)
+                        # different shapes: decide by folding both patterns with the closed-form wait pattern (both contend
+                        # functions equal that fold: 'contend' items here and the fold part of C19)
+                        if not ok:
+                            diffs.append(z3.BoolVal(True)); names.append('I/O port class undecided on the path (call %d)' % j)
+                        else:
+                            tm_ = SymInt(bv(pt_), 0, sh.MACHINES[mach]['frame'] - 1)
+                            d_py = c19.ref_fold(mach, tm_, [(c19.sim_contended(mach, pa, odd), pn) for pa, pn in ppat])
+                            d_c = c19.ref_fold(mach, tm_, exp)
+                            diffs.append(bv(d_py) != bv(d_c)); names.append('contention patterns give different delays (call %d: Python cycle lengths %s, C %s)' % (j, [pn for pa, pn in ppat], [n for c_, n in exp]))
                     else:
                         for i_, ((c_, n), (pa, pn)) in enumerate(zip(exp, ppat)):
                             diffs.append(c19.sim_contended(mach, pa, odd) != c_); names.append('contention class of cycle %d (call %d)' % (i_, j))
@@ -567,8 +575,156 @@ def check_paging(item):
     return new_res()
 
 
+class LoopCut(Exception):
+    pass
+
+
 def check_runloop(item):
-    return new_res()
+    """('runloop', contention, mach): Simulator.run(start, stop, interrupts=True) against CSimulator_run (IR), with the
+    instruction itself replaced on both sides by the same havoc step (fresh PC, IFF, T += dt): two loop iterations from an
+    arbitrary state; the loop is cut before a third instruction.  Compared: the complete state when the loop exits or is cut."""
+    _, contention, mach = item
+    N = 2
+    M = pmachine('CMIOSimulator' if contention else 'Simulator', '48K', False)
+    CM = cmachine(contention, '48K', False)
+    fd, ia = M.sim.frame_duration, M.sim.int_active
+    st = Stats()
+    res = new_res()
+    name = 'run(start, stop, interrupts=True) loop, %s' % ('contended' if contention else 'plain')
+    nregs = 30 if contention else 29
+
+    def havoc_vars(i):
+        return (z3.BitVec('h_pc%d' % i, W), z3.BitVec('h_dt%d' % i, W), z3.BitVec('h_iff%d' % i, W))
+
+    def fn(path):
+        M.reset(path)
+        start = sym_int('start', 0, 65535)
+        stop = sym_int('stop', 0, 65535)
+        hv = [havoc_vars(i) for i in range(N)]
+        for pcv, dtv, iffv in hv:
+            path.assume(pcv >= 0, pcv <= 65535, dtv >= 4, dtv <= 300, iffv >= 0, iffv <= 1)
+        # the opcode at every PC visited is not a prefix (dispatch is not the subject here)
+        calls = {'py': 0, 'c': 0}
+        regs = M.sim.registers
+
+        def py_havoc():
+            i = calls['py']
+            if i >= N:
+                raise LoopCut()
+            calls['py'] += 1
+            pcv, dtv, iffv = hv[i]
+            regs[24] = SymInt(pcv, 0, 65535)
+            regs[25] = regs[25] + SymInt(dtv, 4, 300)
+            regs[26] = SymInt(iffv, 0, 1)
+
+        class Havoc(list):
+            def __getitem__(self, k):
+                return py_havoc
+        real_opcodes = M.sim.opcodes
+        M.sim.opcodes = Havoc()
+        py_cut = False
+        try:
+            M.sim.run(start, stop, True)
+        except LoopCut:
+            py_cut = True
+        finally:
+            M.sim.opcodes = real_opcodes
+        # C side
+        cst = CM.state(M.regs0, M.mem0)
+        it = llsym.Interp(CM.m, CM.m.field_names, cst, path, CM.m.table_dims)
+
+        def c_havoc():
+            i = calls['c']
+            if i >= N:
+                raise LoopCut()
+            calls['c'] += 1
+            pcv, dtv, iffv = hv[i]
+            cst.regs[24] = pcv
+            cst.regs[25] = cst.regs[25] + dtv
+            cst.regs[26] = iffv
+        it.runloop = dict(start=z3.Extract(31, 0, start.e), stop=z3.Extract(31, 0, stop.e), interrupts=z3.BitVecVal(1, 32), havoc=c_havoc)
+        c_cut = False
+        try:
+            it.call('CSimulator_run', [llsym.Ptr(('self',)), llsym.Ptr(('pyobj', 'args')), llsym.Ptr(('pyobj', 'kwds'))])
+        except LoopCut:
+            c_cut = True
+        return py_cut, c_cut, cst, calls
+
+    def on(p, out):
+        res['obligations'] += 1
+        if isinstance(out, tuple) and out[0] == 'exception':
+            res['violations'].append(dict(key=name + ':exception', text='%s: %r' % (name, out[1]), case=dict(kind='none')))
+            return
+        py_cut, c_cut, cst, calls = out
+        post = M.post_regs()
+        diffs = [post[i] != cst.regs[i] for i in range(nregs)]
+        names = list(sh.REG_NAMES[:nregs])
+        k = z3.BitVec('k_addr', 16)
+        diffs.append(z3.Select(M.mem.arr, k) != z3.Select(cst.mem, k)); names.append('memory')
+        if py_cut != c_cut or calls['py'] != calls['c']:
+            diffs.append(z3.BoolVal(True)); names.append('Python ran %d instruction(s)%s, C %d%s' % (calls['py'], ' and continues' if py_cut else '', calls['c'], ' and continues' if c_cut else ''))
+        r, mod, which = p.check_any(diffs, names)
+        if r == 'unknown':
+            res['inconclusive'].append(name); return
+        if r == 'sat' or p.failed_obligations():
+            if mod is None:
+                r, mod = p.check(model=True); which = ['side obligation']
+            ev = lambda n_: mod.eval(z3.BitVec(n_, W), model_completion=True).as_long()
+            regs = [mod.eval(x, model_completion=True).as_long() for x in M.regs0]
+            hvv = [[ev('h_pc%d' % i), ev('h_dt%d' % i), ev('h_iff%d' % i)] for i in range(N)]
+            res['violations'].append(dict(key='%s:%s' % (name, which[0][:40]), text='%s: Python and C differ in %s (T=%d, start=%d, stop=%d, steps %r)' % (name, '; '.join(which[:4]), regs[25], ev('start'), ev('stop'), hvv),
+                                          case=dict(kind='runloop', contention=contention, regs=regs, start=ev('start'), stop=ev('stop'), havoc=hvv)))
+            return
+        res['discharged'] += 1
+        res['nontrivial'] += 1
+        if not res['samples']:
+            res['samples'].append({'item': name, 'iterations': calls['py'], 'cut': py_cut, 'obligation': 'same registers/memory and same number of instructions executed', 'verdict': 'unsat'})
+
+    try:
+        explore(fn, stats=st, on_path=on)
+    except Inconclusive as e:
+        res['inconclusive'].append('%s: %s' % (name, e))
+    return finish(res, st)
+
+
+def _runloop_support():
+    def do_call(self, env, dst, rhs, _orig=llsym.Interp.do_call):
+        rl = getattr(self, 'runloop', None)
+        if rl is not None:
+            import re
+            m = re.match(r'call (?:[a-z_]+ )*?(.+?) (@[\w.]+|%\d+)\((.*)\)$', rhs)
+            if m and m.group(2) in ('@PyArg_ParseTupleAndKeywords', '@_PyArg_ParseTupleAndKeywords_SizeT'):
+                vals = [self.val(env, tok, ty) for ty, tok in (self._ty_tok(a) for a in llsym.split_top(m.group(3)))]
+                for ptr, key in zip(vals[4:7], ('start', 'stop', 'interrupts')):
+                    self.store(ptr, 'i32', rl[key])
+                env[dst] = z3.BitVecVal(1, 32)
+                return
+            if m and m.group(2).startswith('%'):
+                fp = env[m.group(2)]
+                if not fp.is_null() and fp.region == ('func', '__havoc__'):
+                    rl['havoc']()
+                    return
+        return _orig(self, env, dst, rhs)
+
+    def load(self, p, ty, _orig=llsym.Interp.load):
+        if getattr(self, 'runloop', None) is not None and not p.is_null() and p.region[0] == 'global' and p.region[1] in ('opcodes', 'after_CB', 'after_ED', 'after_DD', 'after_FD', 'after_DDCB', 'after_FDCB'):
+            # dispatch is not the subject of the loop check: every entry is the havoc step
+            t = self.m.ty(ty)
+            if isinstance(t, llsym.PtrTy) or isinstance(t, llsym.OpaqueTy):
+                return llsym.Ptr(('func', '__havoc__'))
+            return z3.BitVecVal(0, t.w)
+        return _orig(self, p, ty)
+
+    def gep(self, p, bty, idxs, _orig=llsym.Interp.gep):
+        if getattr(self, 'runloop', None) is not None and not p.is_null() and p.region[0] == 'global' and p.region[1] == 'opcodes':
+            return llsym.Ptr(p.region)          # symbolic index into the dispatch table: irrelevant here
+        return _orig(self, p, bty, idxs)
+    llsym.Interp.do_call = do_call
+    llsym.Interp.load = load
+    llsym.Interp.gep = gep
+
+
+_runloop_support()
 
 
 # ---------------------------------------------------------------------------
@@ -666,7 +822,7 @@ def main():
     items += [('plain', '48K', True) + s for s in slots if s in io]
     items += [('cmio', '48K', False) + s for s in slots]
     items += [('cmio', '48K', True) + s for s in slots if s in io]
-    items += [('interrupt', False, '48K'), ('interrupt', True, '48K')]
+    items += [('interrupt', False, '48K'), ('interrupt', True, '48K'), ('runloop', False, '48K'), ('runloop', True, '48K')]
     for mach in ('48K', '128K'):
         items += [('contend', mach, 1, False), ('contend', mach, 2, False), ('contend', mach, 0, True)]
     sel128 = [s for n, s in enumerate(slots) if n % 32 == args.seed % 32 or s in io] if args.tier == 'quick' else slots
@@ -690,7 +846,7 @@ def main():
                '128K: both sides see a flat 64K view split at the slot boundaries'],
         rule='one case per feasible joint path (Python closure; C handler) per slot and configuration',
         explanation='Translation-validation style bounded symbolic verification: the two implementations of every instruction are executed symbolically from one state and z3 decides equality of the complete post-states.')
-    for r in harness.pmap(work, items, args.jobs, init=init_worker, seed=args.seed, first=lambda i: i[0] in ('contend', 'selftest', 'tables', 'interrupt')):
+    for r in harness.pmap(work, items, args.jobs, init=init_worker, seed=args.seed, first=lambda i: i[0] in ('contend', 'selftest', 'tables', 'interrupt', 'runloop')):
         rep.add(r)
     if rep.paths < rep.items:
         rep.vacuity.append('some work items explored no path')
